@@ -1753,9 +1753,13 @@ class Module(ABC):
         state_names = all_externals if state_name is None else [state_name]
         for state_name in state_names:
             if state_name in self.externals:
-                keep_inds = ~np.isin(
-                    self.base.external_inds[state_name], self._nodes_in_view
+                _, edge_states = self.base._get_state_names()
+                inds_in_view = (
+                    self._edges_in_view
+                    if state_name in edge_states
+                    else self._nodes_in_view
                 )
+                keep_inds = ~np.isin(self.base.external_inds[state_name], inds_in_view)
                 base_exts = self.base.externals
                 base_exts_inds = self.base.external_inds
                 if np.all(~keep_inds):
@@ -2530,11 +2534,17 @@ class View(Module):
         self._set_synapses_in_view(pointer)
 
         ptr_recs = pointer.recordings
-        self.recordings = (
-            pd.DataFrame()
-            if ptr_recs.empty
-            else ptr_recs.loc[ptr_recs["rec_index"].isin(self._comps_in_view)]
-        )
+        if ptr_recs.empty:
+            self.recordings = pd.DataFrame()
+        else:
+            # Recordings of synaptic states refer to edges, all others to compartments.
+            _, edge_states = self.base._get_state_names()
+            rec_in_view = np.where(
+                ptr_recs["state"].isin(edge_states),
+                ptr_recs["rec_index"].isin(self._edges_in_view),
+                ptr_recs["rec_index"].isin(self._comps_in_view),
+            )
+            self.recordings = ptr_recs.loc[rec_in_view]
 
         self.channels = self._channels_in_view(pointer)
         self.membrane_current_names = [c.current_name for c in self.channels]
@@ -2633,10 +2643,13 @@ class View(Module):
         """Update external inputs to show only those currently in view."""
         self.externals = {}
         self.external_inds = {}
+        _, edge_states = self.base._get_state_names()
         for (name, inds), data in zip(
             self.base.external_inds.items(), self.base.externals.values()
         ):
-            in_view = np.isin(inds, self._nodes_in_view)
+            # Clamps of synaptic states refer to edges, all other inputs to compartments.
+            viewed = self._edges_in_view if name in edge_states else self._nodes_in_view
+            in_view = np.isin(inds, viewed)
             inds_in_view = inds[in_view]
             if len(inds_in_view) > 0:
                 self.externals[name] = data[in_view]
